@@ -30,6 +30,8 @@ Cast(r) == [f \in 1..NFields |-> After(r[f])]
 \* custom handlers used by the bounded instance:
 \*   custom4: keeps a failing row iff its index is even (decides per call from the row index only)
 \*   custom5: keeps the row iff the failing field is the first field, and nulls that field (like clear, for field 1 only)
+\*   custom5r: the mirror image - keeps the row iff the failing field is the LAST field and nulls it; a row failing in an
+\*            earlier AND in the last field gets "drop" first and "keep" second: one "drop" verdict drops the row
 Keep4(i) == i % 2 = 0
 
 \* ------------------ (i) declarative meaning ------------------
@@ -51,6 +53,8 @@ Def(policy, t) ==
        [] policy = "custom4" -> emit(SelectIdx(t, LAMBDA i : ~HasBad(t[i]) \/ Keep4(i - 1)), LAMBDA i : Cast(t[i]))
        [] policy = "custom5" -> emit(SelectIdx(t, LAMBDA i : \A f \in 2..NFields : t[i][f] # "bad"),
                                      LAMBDA i : [f \in 1..NFields |-> IF f = 1 /\ t[i][f] = "bad" THEN "nul" ELSE After(t[i][f])])
+       [] policy = "custom5r" -> emit(SelectIdx(t, LAMBDA i : \A f \in 1..(NFields - 1) : t[i][f] # "bad"),
+                                      LAMBDA i : [f \in 1..NFields |-> IF f = NFields /\ t[i][f] = "bad" THEN "nul" ELSE After(t[i][f])])
 \* the handler is consulted once per failing cell, in row order then schema order (raise: only the first)
 CallsDef(policy, t) ==
   LET RECURSIVE C(_, _)
@@ -68,7 +72,7 @@ Init == /\ tbl \in Tables /\ policy \in Policies
         /\ raised = -1 /\ rfield = 0 /\ st = "run"
 CurRow == IF f = 1 THEN tbl[i] ELSE row
 Decide(pol, idx, fld) == CASE pol = "drop" -> FALSE [] pol \in {"ignore", "clear"} -> TRUE
-                           [] pol = "custom4" -> Keep4(idx) [] pol = "custom5" -> fld = 1 [] OTHER -> FALSE
+                           [] pol = "custom4" -> Keep4(idx) [] pol = "custom5" -> fld = 1 [] pol = "custom5r" -> fld = NFields [] OTHER -> FALSE
 Cell == /\ st = "run" /\ i <= Len(tbl) /\ f <= NFields
         /\ LET r == CurRow c == r[f] IN
            IF c # "bad"
@@ -76,7 +80,7 @@ Cell == /\ st = "run" /\ i <= Len(tbl) /\ f <= NFields
            ELSE /\ calls' = Append(calls, <<i - 1, f>>)
                 /\ IF policy = "raise"
                    THEN /\ st' = "raised" /\ raised' = i - 1 /\ rfield' = f /\ row' = r /\ UNCHANGED okay
-                   ELSE /\ row' = IF policy = "clear" \/ (policy = "custom5" /\ f = 1) THEN [r EXCEPT ![f] = "nul"] ELSE r
+                   ELSE /\ row' = IF policy = "clear" \/ (policy = "custom5" /\ f = 1) \/ (policy = "custom5r" /\ f = NFields) THEN [r EXCEPT ![f] = "nul"] ELSE r
                         /\ okay' = (okay /\ Decide(policy, i - 1, f))
                         /\ UNCHANGED <<raised, rfield, st>>
         /\ f' = f + 1 /\ UNCHANGED <<tbl, policy, i, out, oidx>>
